@@ -275,12 +275,14 @@ func (r *Router) deployTargetsIntoService(service *Service, targetSlot TargetSlo
 	}
 
 	replaced := service.UpdateLoadBalancer(lb, targetSlot)
+	verifPoint("deploy.before-install", service, lb, replaced)
 
 	err = r.installService(service)
 	if err != nil {
 		return err
 	}
 
+	verifPoint("deploy.installed", service, lb, replaced)
 	if replaced != nil {
 		replaced.DrainAll(drainTimeout)
 		replaced.Dispose()
@@ -327,10 +329,12 @@ func (r *Router) saveStateSnapshot() error {
 		return nil
 	})
 
+	verifPoint("snapshot.listed", r)
 	f, err := os.Create(r.statePath)
 	if err != nil {
 		return err
 	}
+	verifPoint("snapshot.created", r)
 
 	err = json.NewEncoder(f).Encode(services)
 	if err != nil {
@@ -338,6 +342,7 @@ func (r *Router) saveStateSnapshot() error {
 		return err
 	}
 
+	verifPoint("snapshot.written", r)
 	slog.Debug("Saved state", "path", r.statePath)
 	return nil
 }
